@@ -33,34 +33,35 @@ type Chunk struct {
 
 // Op is one abstract operation; unused fields keep their zero value.
 type Op struct {
-	Op       string  `json:"op"`
-	Repo     string  `json:"repo"`
-	Dig      string  `json:"dig"`
-	Body     string  `json:"body"`
-	Ref      Ref     `json:"ref"`
-	Ctype    string  `json:"ctype"`
-	CtVar    string  `json:"ctvar"`
-	LenKnown bool    `json:"lenKnown"`
-	DParam   string  `json:"dparam"`
-	Sess     string  `json:"sess"`
-	Cr       string  `json:"cr"`
-	St       string  `json:"st"`
-	Chunk    Chunk   `json:"chunk"`
-	Alg      string  `json:"alg"`
-	Mount    string  `json:"mount"`
-	From     string  `json:"from"`
-	N        string  `json:"n"`
-	NI       int     `json:"ni"`
-	NC       string  `json:"nc"`
-	Last     int     `json:"last"`
-	Subject  string  `json:"subject"`
-	Filter   string  `json:"filter"`
-	Accept   string  `json:"accept"`
-	Range    string  `json:"range"`
-	Method   string  `json:"method"`
-	Which    string  `json:"which"`
-	Raw      *RawReq `json:"raw,omitempty"`
-	NewCfg   *SrvCfg `json:"newcfg,omitempty"`
+	Op       string   `json:"op"`
+	Repo     string   `json:"repo"`
+	Dig      string   `json:"dig"`
+	Body     string   `json:"body"`
+	Ref      Ref      `json:"ref"`
+	Ctype    string   `json:"ctype"`
+	CtVar    string   `json:"ctvar"`
+	LenKnown bool     `json:"lenKnown"`
+	DParam   string   `json:"dparam"`
+	Sess     string   `json:"sess"`
+	Cr       string   `json:"cr"`
+	St       string   `json:"st"`
+	Chunk    Chunk    `json:"chunk"`
+	Alg      string   `json:"alg"`
+	Mount    string   `json:"mount"`
+	From     string   `json:"from"`
+	N        string   `json:"n"`
+	NI       int      `json:"ni"`
+	NC       string   `json:"nc"`
+	Last     int      `json:"last"`
+	Subject  string   `json:"subject"`
+	Filter   string   `json:"filter"`
+	Accept   string   `json:"accept"`
+	Range    string   `json:"range"`
+	Method   string   `json:"method"`
+	Which    string   `json:"which"`
+	Evicted  []string `json:"evicted,omitempty"` // op Evict (logged only): handles of the sessions a count prune removed
+	Raw      *RawReq  `json:"raw,omitempty"`
+	NewCfg   *SrvCfg  `json:"newcfg,omitempty"`
 }
 
 // RawReq is a fully concrete request (used by the routing/error classes of C15).
@@ -97,6 +98,16 @@ type Resp struct {
 	CLen    int      `json:"clen"` // length of the chunk that was sent
 	Note    string   `json:"note"`
 }
+
+// virtual clock (set by vclock.go in the vclock build)
+var (
+	vclockOn        bool
+	vclockReset     = func() {}
+	vclockAdvance   = func(sec int) {}
+	vclockFire      = func() int { return 0 }
+	vclockPending   = func() int { return 0 }
+	vclockRunQueued = func() int { return 0 }
+)
 
 type sessInfo struct {
 	repoReal string
@@ -607,6 +618,16 @@ func (e *Exec) Do(op Op) Resp {
 		if err != nil {
 			r.Status = 500
 			r.Note = err.Error()
+		}
+		return r
+	case "Tick":
+		// virtual time passes and every due timer fires (only in the vclock build; elsewhere nothing happens)
+		r := Resp{Status: 200, Off: -1, StOff: -1, Len: -1, Codes: []string{}, List: []string{}, ErrDoc: "none"}
+		if vclockOn {
+			vclockAdvance(op.NI)
+			r.Len = vclockFire()
+		} else {
+			r.Note = "no virtual clock in this build"
 		}
 		return r
 	case "Age":
